@@ -78,4 +78,27 @@ def runSpec : List (Stage R κ) → List R → List R
   | [], rows => rows
   | st :: rest, rows => runSpec rest (stageSpec st rows)
 
+/-! ### OFFSET / LIMIT: the concrete sequential stages of View.Offset / View.Limit -/
+
+/-- OFFSET n: the rows after the first `n` -/
+def offsetStage (n : Nat) : Stage R κ := .seq (List.drop n)
+
+/-- LIMIT k / FETCH FIRST k ROWS ONLY -/
+def limitStage (k : Nat) : Stage R κ := .seq (List.take k)
+
+/-- LIMIT p PERCENT after an OFFSET of `off` rows: ⌈(rows left + off)·p/100⌉ rows (View.Limit counts the rows the
+    OFFSET removed) -/
+def limitPercentStage (p off : Nat) : Stage R κ := .seq fun l => l.take (((l.length + off) * p + 99) / 100)
+
+/-- LIMIT k WITH TIES over the sort key `key`: the rows after the k-th that share its key stay -/
+def takeTies (key : R → κ) (k : Nat) (l : List R) : List R :=
+  match k with
+  | 0 => []
+  | k' + 1 =>
+    match l[k']? with
+    | none => l
+    | some b => l.take (k' + 1) ++ (l.drop (k' + 1)).takeWhile fun r => decide (key r = key b)
+
+def limitTiesStage (key : R → κ) (k : Nat) : Stage R κ := .seq (takeTies key k)
+
 end Csvq.Pipeline
